@@ -12,8 +12,34 @@ CLAIMED = {
         'technique': 'Kani/CBMC symbolic execution of extracted real source over model types (SAT)',
     },
 }
+CLAIMED['C01'] = {
+    'engines': ['K-model', 'M'],
+    'text': 'bounded model checking: (K-model) the real text of check_if_response_is_matched, check_continuous_headers, is_parent_of, '
+            'patched_is_valid and verify_mmr_proof against independent declarative specifications for all inputs within the bounds; '
+            '(M) z3 path queries on the MIR of both handlers showing that every write of trusted state is dominated by the Ok edge of every check '
+            'and follows no Err edge. Crypto (blake2b, PoW, MMR crate) is uninterpreted; responses with more than 5 headers and '
+            'multi-peer interplay are outside the claim',
+    'design_ref': 'DESIGN.md section 4, C01', 'note': TRUST,
+    'technique': 'Kani/CBMC (SAT) on extracted real source + z3 simple-path queries on rustc MIR',
+}
+CLAIMED['C02'] = {
+    'engines': ['K-model', 'M'],
+    'text': 'bounded model checking: (M) the three handlers store / mark fetched / index only behind request match, last-hash, PoW, MMR, '
+            'Merkle-root and body-commitment checks (must-precede / must-not-follow on MIR, all data havoc); (K-model) the request-match '
+            'predicates, verify_extra_hash and add_block against their specifications. Crypto uninterpreted; RPC read paths outside the claim',
+    'design_ref': 'DESIGN.md section 4, C02', 'note': TRUST,
+    'technique': 'z3 simple-path queries on rustc MIR + Kani/CBMC (SAT) on extracted real source',
+}
+CLAIMED['C12'] = {
+    'engines': ['K-model'],
+    'text': 'bounded model checking of the real text of SendLastStateProcess::execute, update_prove_state_to_child, commit_prove_state and '
+            'ProveState::new_child over models of Storage/Peers with an ordered ghost log of every effect: the tip is stored only with strictly '
+            'greater, truthful total difficulty of a linked child / a proven header. Restart through RocksDB and multi-peer sequences are outside',
+    'design_ref': 'DESIGN.md section 4, C12', 'note': TRUST,
+    'technique': 'Kani/CBMC symbolic execution of extracted real source over model types (SAT)',
+}
 _PENDING = 'check not yet registered in this revision (being built; see DESIGN.md section 4 for the planned obligations)'
-NOT_APPLICABLE = {p: _PENDING for p in ['C01', 'C02', 'C03', 'C04', 'C05', 'C06', 'C07', 'C08', 'C09', 'C10', 'C12', 'C13',
+NOT_APPLICABLE = {p: _PENDING for p in ['C03', 'C04', 'C05', 'C06', 'C07', 'C08', 'C09', 'C10', 'C13',
                                         'C14', 'C15', 'C16', 'C18']}
 NOT_APPLICABLE['C17'] = ('concurrency: Kani/CBMC does not model Rust threads and no concurrent solver-based engine is available in this '
                          'sandbox; only lock-discipline facts are decided (under C09/C04), which is not the property')
